@@ -1026,6 +1026,9 @@ func customOptions() []gojq.CompilerOption {
 		gojq.WithFunction("nerr", 1, 1, func(_ any, xs []any) any { return &valueErr{xs[0]} }),
 		// returns the argument slice ITSELF (a function that keeps or returns what it was given must not see later arguments)
 		gojq.WithFunction("nvec", 1, 3, func(_ any, xs []any) any { return xs }),
+		// the same through the MERGE of two registrations of one name (arity 1, then 2..3): every registration must get its own copy
+		gojq.WithFunction("nvm", 1, 1, func(_ any, xs []any) any { return xs }),
+		gojq.WithFunction("nvm", 2, 3, func(_ any, xs []any) any { return xs }),
 		// overlapping registrations of one name: 0..2 then 1..3, the same relation (which one runs on 1..2 is the arity stream's business)
 		gojq.WithFunction("ov", 0, 2, arr("ov")),
 		gojq.WithFunction("ov", 1, 3, arr("ov")),
@@ -1058,6 +1061,9 @@ def d_nerr(a): a as $a | error($a);
 def d_nvec(a): a as $a | [$a];
 def d_nvec(a; b): b as $b | a as $a | [$a, $b];
 def d_nvec(a; b; c): c as $c | b as $b | a as $a | [$a, $b, $c];
+def d_nvm(a): a as $a | [$a];
+def d_nvm(a; b): b as $b | a as $a | [$a, $b];
+def d_nvm(a; b; c): c as $c | b as $b | a as $a | [$a, $b, $c];
 def d_ov: ["ov", .];
 def d_ov(a): a as $a | ["ov", ., $a];
 def d_ov(a; b): b as $b | a as $a | ["ov", ., $a, $b];
@@ -1087,9 +1093,9 @@ def d_i2(a; b): b as $b | a as $a | (["i2", ., $a, $b], $a);
 	return b.String()
 }
 
-var customArity = map[string][]int{"n0": {0}, "nid": {0}, "n1": {1}, "n2": {2}, "n3": {3}, "nsnd": {2}, "nerr": {1}, "nvec": {1, 2, 3},
+var customArity = map[string][]int{"n0": {0}, "nid": {0}, "n1": {1}, "n2": {2}, "n3": {3}, "nsnd": {2}, "nerr": {1}, "nvec": {1, 2, 3}, "nvm": {1, 2, 3},
 	"ov": {0, 1, 2, 3}, "igen": {1}, "iempty": {0, 1}, "ione": {0}, "ierr": {1}, "i2": {2}}
-var customNames = []string{"n0", "nid", "n1", "n2", "n3", "nsnd", "nerr", "nvec", "ov", "igen", "iempty", "ione", "ierr", "i2"}
+var customNames = []string{"n0", "nid", "n1", "n2", "n3", "nsnd", "nerr", "nvec", "nvm", "ov", "igen", "iempty", "ione", "ierr", "i2"}
 
 var customArgs = []string{"1", ".", "(1,2)", "(.[]?)", "empty", `error("e")`, `"s"`, "(3,4,5)", ".a?", "first(range(3))",
 	"(label $o | 1, break $o, 2)", ".[0]?", "[.]", "(10,20)", "null", "(.a?, .b?)", "try error(1) catch 2", "$v"}
